@@ -260,11 +260,30 @@ Section Image.
     | _ => true
     end.
 
+  (* an identifier that is neither a defined name nor a table: the parser makes a variable of it *)
+  Definition ident_free (name : text) : bool :=
+    match sheet_index env None with
+    | None => false
+    | Some ci =>
+      match get_defined_name nm env name ci with
+      | Some _ => false
+      | None => negb (is_table nm env name)
+      end
+    end.
+
+  (* the identifier a LAMBDA parameter is printed as ("_xlpm.x" / "_xlop.x" in the xlsx form) *)
+  Definition param_ident (p : lparam) : text :=
+    if pm_xlsx m then (if lp_opt p then t_xlop else t_xlpm) ++ lp_name p else lp_name p.
+
   Definition param_ok (p : lparam) : bool :=
     match lp_id p with Some _ => false | None =>
-      var_ok (lp_name p)
+      ident_free (param_ident p)
       && match strip_prefix t_xlop (lp_name p) with Some _ => false | None => true end
+      && match strip_prefix t_xlpm (lp_name p) with Some _ => false | None => true end
     end.
+
+  (* "LAMBDA" is recognised by [name.to_uppercase() == "LAMBDA"] (or the literal "_xlfn.LAMBDA") *)
+  Definition lambda_name_ok : bool := pm_xlsx m || text_eqb (nm_upper nm t_lambda) t_lambda.
 
   (* [image e]: e is a tree [parse] returns for some text (operands are never EmptyArg; an
      argument list is never a single EmptyArg; leaves are spelled so that the lexer reads them
@@ -281,7 +300,7 @@ Section Image.
     | ENamedFun id name args =>
         (match id with None => true | Some _ => false end) && named_fun_ok name
         && args_shape_ok args && forallb (image_at true) args
-    | ELambdaDef ps body => forallb param_ok ps && image_at false body
+    | ELambdaDef ps body => lambda_name_ok && forallb param_ok ps && image_at false body
     | ELambdaCall lam args =>
         (match lam with ELambdaDef _ _ => true | _ => false end) && image_at false lam
         && args_shape_ok args && forallb (image_at true) args
@@ -332,10 +351,12 @@ Section Image.
     | _ => true
     end.
 
-  (* node kinds inside the proved theorem: everything except arrays and LAMBDA *)
+  (* node kinds inside the proved theorem: all of them (kept as a hook: a property built on this
+     library may restrict it) *)
   Fixpoint fragment (e : ast) : bool :=
     match e with
-    | ELambdaDef _ _ | ELambdaCall _ _ => false
+    | ELambdaDef _ body => fragment body
+    | ELambdaCall lam args => fragment lam && forallb fragment args
     | ERangeOp l r | EConcat l r | ESum _ l r | EProd _ l r | EPow l r | ECmp _ l r =>
         fragment l && fragment r
     | EFun _ args | ENamedFun _ _ args => forallb fragment args
